@@ -217,7 +217,7 @@ def run_shard(ctx):
             d = rng.choice([10, 12, 15, 17, 19, 20, 21, 25, 40])         # decimal_digits is a u8: long fractions are a format setting too
             pd = rng.choice([10, 15, 19, 20, 22, 30])
         cfg = mon.cfg_with(dec=sep[0], thou=sep[1], digits=d, pdigits=pd, rm=rng.random() < 0.5, round=rng.random() < 0.8,
-                           mrm=rng.random() < 0.5, mround=rng.random() < 0.8)
+                           mrm=rng.random() < 0.5, mround=rng.random() < 0.8, thou_first=rng.random() < 0.5)      # both orders of the separator setters
         if not exotic and d < 10 and pd < 10:
             run_derived(ctx, drv, cfg, sep, curs, units_by_key)
             run_user_units(ctx, drv, cfg, sep)
